@@ -17,6 +17,7 @@
 EXTENDS Integers, Sequences, TLC, Json
 CONSTANTS Seed, ScalarClasses, MulClasses, MaxOps, Exact, DecPoints, Mode, OutFile
 B  == INSTANCE Bn
+G2c == INSTANCE BnG2c
 BN == INSTANCE BigNat
 R  == INSTANCE Prng
 Hx == INSTANCE Hex
@@ -180,6 +181,27 @@ DecG2(j, variant) ==
                    [] variant = "max" -> [i \in 1..128 |-> 255]
          r == B!G2Decode(data)
      IN EmitDec("g2", "raw", <<variant, j>>, data, r.ok, IF r.ok THEN B!G2Bytes(r.pt) ELSE <<>>)
+(* compressed G2 (65 bytes: 02/03 || x1 || x0): square roots in F_p^2 by algo/BnG2c.  Variants whose abscissa is on the twist but  *)
+(* whose point need not lie in the order-N subgroup are not generated ("nonresidue" is emitted only when x^3 + 5u has no root).      *)
+DecG2c(j, variant) ==
+  /\ nops = 0 /\ Mode = "dec"
+  /\ LET q == B!Mul2(BN!FromInt(j), B!G2)
+         c == B!G2Compressed(q)
+         half(k) == SubSeq(c, 2 + 32 * k, 33 + 32 * k)
+         cp(k) == IF FitsPlusP(BN!Norm(half(k))) THEN SubSeq(c, 1, 1 + 32 * k) \o PlusP(BN!Norm(half(k))) \o SubSeq(c, 34 + 32 * k, 65) ELSE c
+         data == CASE variant = "canon" -> c
+                   [] variant = "flip" -> [c EXCEPT ![1] = 5 - @]
+                   [] variant = "c0plusp" -> cp(0)
+                   [] variant = "c1plusp" -> cp(1)
+                   [] variant = "c0isp" -> <<c[1]>> \o PBytes \o SubSeq(c, 34, 65)
+                   [] variant = "prefix4" -> [c EXCEPT ![1] = 4]
+                   [] variant = "prefix0" -> [c EXCEPT ![1] = 0]
+                   [] variant = "nonresidue" -> <<2>> \o BN!ToFixed(BN!FromInt(j), 32) \o BN!ToFixed(BN!FromInt(j + 1), 32)
+                   [] variant = "short" -> SubSeq(c, 1, 64)
+                   [] variant = "trailing" -> c \o <<7>>
+         r == G2c!G2DecodeCompressed(data)
+     IN /\ (variant = "nonresidue" => ~r.ok)
+        /\ EmitDec("g2", "compressed", <<variant, j>>, data, r.ok, IF r.ok THEN B!G2Bytes(r.pt) ELSE <<>>)
 (* GT: only the standard's g is available as a canonical element; every coordinate pushed out of range must be refused *)
 DecGT(i, variant) ==
   /\ nops = 0 /\ Mode = "dec"
@@ -202,6 +224,7 @@ Next == \/ \E g \in Groups, c \in ScalarClasses : Base(g, c)
         \/ \E j \in DecPoints : (\E v \in {"canon", "xplusp", "yplusp", "xisp", "offcurve", "zeros", "xzero", "short", "trailing", "max"} : DecG1(j, v))
                                 \/ (\E v \in {"canon", "flip", "xplusp", "prefix4", "prefix0", "nonresidue", "short"} : DecG1c(j, v))
                                 \/ (\E v \in {"canon", "c0plusp", "c1plusp", "c2plusp", "c3plusp", "c0isp", "offcurve", "zeros", "short", "max"} : DecG2(j, v))
+                                \/ (\E v \in {"canon", "flip", "c0plusp", "c1plusp", "c0isp", "prefix4", "prefix0", "nonresidue", "short", "trailing"} : DecG2c(j, v))
         \/ \E i \in 0..11, v \in {"canon", "plusp", "isp", "max", "short"} : DecGT(i, v)
 Spec == Init /\ [][Next]_vars
 
